@@ -81,6 +81,27 @@ func (r *Run) Violate(key, detail string, replay interface{}) {
 	r.violations = append(r.violations, Violation{Key: key, Detail: detail, Replay: replay})
 }
 
+// Violations returns a copy of the violations recorded so far.
+func (r *Run) Violations() []Violation {
+	r.mu.Lock()
+	defer r.mu.Unlock()
+	return append([]Violation{}, r.violations...)
+}
+
+// MachineryProblems returns the machinery problems recorded so far.
+func (r *Run) MachineryProblems() []string {
+	r.mu.Lock()
+	defer r.mu.Unlock()
+	return append([]string{}, r.machinery...)
+}
+
+// Evals returns the number of evaluations counted so far.
+func (r *Run) Evals() int64 {
+	r.mu.Lock()
+	defer r.mu.Unlock()
+	return r.evals
+}
+
 func (r *Run) NumViolations() int {
 	r.mu.Lock()
 	defer r.mu.Unlock()
